@@ -55,7 +55,10 @@ FALSE_WORDS = ['0', 'f', 'false', 'off', 'n', 'no']
 WORDS = TRUE_WORDS + FALSE_WORDS
 WS = ' \t\n\r\x0b\x0c'
 PADS = [('', ''), (' ', ''), ('', ' '), (' ', ' '), ('\t', ''), ('', '\t'), ('\n', ''), ('', '\n'),
-        ('\t', '\n'), ('  \t', '\r\n '), ('\x0b', '\x0c')]
+        ('\t', '\n'), ('  \t', '\r\n '), ('\x0b', '\x0c'),
+        # "surrounding whitespace" has no length limit: around typical internal buffer sizes and well beyond
+        (' ' * 63, ''), ('', ' ' * 64), (' ' * 30, ' ' * 31), ('', ' ' * 255), ('\t' * 256, ''), (' ' * 1000, '\n' * 3000),
+        ('', ' ' * 65536)]
 DEFAULTS = [False, True, None, 'dflt', 7]
 _WORD_RE = re.compile(r'[ \t\n\r\x0b\x0c]*(?:(1|t|true|on|y|yes)|(0|f|false|off|n|no))[ \t\n\r\x0b\x0c]*',
                       re.I | re.A)
